@@ -159,6 +159,22 @@ def lifeLine (s : LSt) (m : LMon) (ts : List String) (real : Option String) : Op
     match d.toNat? with
     | some dl => some ({ delay := dl, dynamic := dyn == "1", auto := auto == "1" }, ({} : LMon), "ok", "-")
     | none => some (s, m, "bad-op", "-")
+  | ["lf-open-end", vb, c] =>
+    -- a stream that ends while `Open()` is still opening the other vBuckets: the same two model steps as
+    -- `lf-open` followed by `lf-end VB CAUSE` (the count is preset to the assignment size before any stream opens)
+    match vb.toNat?, parseCause c with
+    | some v, some cause =>
+      let (s1, o1) := Life.step s .open
+      let (s2, o2) := Life.step s1 (.endEv v cause)
+      let (m1, v1) := match real with
+        | some r => lmonStep m ["lf-open"] r
+        | none => (m, "-")
+      -- the end is part of this line: count it for the C12 clauses
+      let m2 := if cause != .transient && m1.assigned.contains v then { m1 with ended := m1.ended ++ [v] } else m1
+      let v1 := if v1 == "ok" && (match real with | some r => (r.splitOn " ; ").contains "stop" && !(m2.assigned.all (m2.ended.contains ·)) | none => false)
+                then "FAIL C12.stopped-before-all-ended" else v1
+      some (s2, m2, showLObss (o1 ++ o2), v1)
+    | _, _ => some (s, m, "bad-op", "-")
   | _ =>
     match parseLOp ts with
     | some op =>
